@@ -25,7 +25,7 @@ from __future__ import annotations
 
 import ast
 
-from ..astutil import attr_chain, callee_name, calls, is_name, is_self_attr, text
+from ..astutil import call_recv, attr_chain, callee_name, calls, is_name, is_self_attr, text
 from ..core import Result
 from ..flow import MustFlow
 from ..model import AnchorMissing, Repo, walk_no_nested
@@ -67,7 +67,7 @@ def run(repo: Repo) -> Result:
         ok = False
         if isinstance(left, ast.Name):
             binds = [st for st in walk_no_nested(fm.node) if isinstance(st, ast.Assign) and is_name(st.targets[0], left.id)]
-            doubled = [b for b in binds if isinstance(b.value, ast.Call) and callee_name(b.value) == "sub" and attr_chain(b.value.func.value) == ["self", "re_percent"] and len(b.value.args) == 2 and is_name(b.value.args[1], "message_text")]
+            doubled = [b for b in binds if isinstance(b.value, ast.Call) and callee_name(b.value) == "sub" and attr_chain(call_recv(b.value)) == ["self", "re_percent"] and len(b.value.args) == 2 and is_name(b.value.args[1], "message_text")]
             rewraps = [b for b in binds if isinstance(b.value, ast.Call) and callee_name(b.value) == "Markup" and b.value.args and is_name(b.value.args[0], left.id)]
             ok = len(doubled) == 1 and len(doubled) + len(rewraps) == len(binds) and all(b.lineno < m.lineno for b in binds)
             if doubled:
@@ -115,13 +115,13 @@ def run(repo: Repo) -> Result:
         res.add("C26-PERCENT", fmt.qual, "mod", "TranslateNode._format_message must be `message_text % _vars`", fmt.file, fmt.line)
     vb = tag.methods["validate_message_block"]
     res.ob(vb.qual, 3)
-    appends = [c for c in calls(vb.node) if callee_name(c) == "append" and is_name(c.func.value, "message_text")]
+    appends = [c for c in calls(vb.node) if callee_name(c) == "append" and is_name(call_recv(c), "message_text")]
     if len(appends) < 2:
         res.add("C26-PERCENT", vb.qual, "pieces", "validate_message_block must assemble the message from text and placeholder pieces", vb.file, vb.line)
     for a in appends:
         arg = a.args[0]
         ok = (
-            isinstance(arg, ast.Call) and callee_name(arg) == "replace" and text(arg.func.value) == "node.text" and [getattr(x, "value", None) for x in arg.args] == ["%", "%%"]
+            isinstance(arg, ast.Call) and callee_name(arg) == "replace" and text(call_recv(arg)) == "node.text" and [getattr(x, "value", None) for x in arg.args] == ["%", "%%"]
         ) or (isinstance(arg, ast.JoinedStr) and text(arg) == "f'%({var})s'")
         if not ok:
             res.add("C26-PERCENT", vb.qual, f"piece:{text(arg)[:40]}", f"validate_message_block adds `{text(arg)[:50]}` to the message: only %-doubled text and %(var)s placeholders may be added (the text is printf-formatted at render time)", vb.file, a.lineno)
@@ -129,7 +129,7 @@ def run(repo: Repo) -> Result:
     gt = node.methods["gettext"]
     res.ob(gt.qual, 3)
     for c in calls(gt.node):
-        if callee_name(c) in ("gettext", "ngettext", "pgettext", "npgettext") and is_name(c.func.value, "translations"):
+        if callee_name(c) in ("gettext", "ngettext", "pgettext", "npgettext") and is_name(call_recv(c), "translations"):
             for a in c.args:
                 if text(a) not in ("self.singular_block.text", "self.plural_block.text", "message_context", "count"):
                     res.add("C26-PERCENT", gt.qual, f"arg:{text(a)[:30]}", f"TranslateNode.gettext passes `{text(a)}` to {callee_name(c)}", gt.file, c.lineno)
@@ -164,7 +164,7 @@ def run(repo: Repo) -> Result:
         if f"{cnt} = int_arg({cnt}, default=1)" not in tt:
             res.add("C26-COUNT", f.qual, "count-conversion", f"{f.qual} must convert its count with int_arg(count, default=1)", f.file, f.line)
         for c in calls(f.node):
-            if callee_name(c) in ("ngettext", "npgettext") and is_name(c.func.value, "translations") and text(c.args[-1]) != cnt:
+            if callee_name(c) in ("ngettext", "npgettext") and is_name(call_recv(c), "translations") and text(c.args[-1]) != cnt:
                 res.add("C26-COUNT", f.qual, "count-arg", "the count must be the last argument", f.file, c.lineno)
     rc = node.methods["resolve_count"]
     res.ob(rc.qual)
